@@ -409,7 +409,7 @@ class _MaxsizeOps:
             return (v, v)
         return cls.INTS.get(v)
 
-    def compare(self, op, left, right):
+    def compare(self, op, left, right, env=None):
         if op in ("Is", "IsNot"):
             if left is None or right is None:
                 other = right if left is None else left
@@ -436,14 +436,14 @@ class _MaxsizeOps:
         yes, no = table[op]
         return True if yes else False if no else UNKNOWN
 
-    def truth(self, v):
+    def truth(self, v, env=None):
         if v in ("NONE", "ZERO"):
             return False
         if v in ("NEG", "POS", "CALLABLE"):
             return True
         return UNKNOWN
 
-    def call(self, func, args, kwargs, node):
+    def call(self, func, args, kwargs, node, env=None):
         if func == "isinstance" and len(args) == 2 and len(node.args) == 2 and norm(node.args[1]) == "int":
             v = args[0]
             if v is UNKNOWN:
@@ -502,7 +502,8 @@ def _front_end(ctx, u, nested, ev: AbsEval, cls_name: str, wrappers) -> List[Tup
     the decorator; returns the (wrapper kind, maxsize argument) pairs constructed."""
     out: List[Tuple[str, Any]] = []
     cfg = cfg_of(u)
-    for path, env, term in absint.walk(cfg, ev, {"maxsize": cls_name, "typed": "TYPED"}):
+    for oc in absint.Machine(cfg, ev.ops).run({"maxsize": cls_name, "typed": "TYPED"}):
+        path, env, term = oc.path, oc.env, oc.terminal
         made = _constructions(ctx, u, path, env, ev, wrappers)
         if term.kind == "raise_exit":
             out.append(("raise", None))
@@ -511,7 +512,8 @@ def _front_end(ctx, u, nested, ev: AbsEval, cls_name: str, wrappers) -> List[Tup
         rv = ret[-1].info.get("value") if ret else None
         if isinstance(rv, ast.Name) and any(x.qualname.endswith("." + rv.id) for x in nested):
             inner = [x for x in nested if x.qualname.endswith("." + rv.id)][0]
-            for p2, env2, term2 in absint.walk(cfg_of(inner), ev, dict(env, function="FUNCTION")):
+            for oc2 in absint.Machine(cfg_of(inner), ev.ops).run(dict(env, function="FUNCTION")):
+                p2, env2, term2 = oc2.path, oc2.env, oc2.terminal
                 if term2.kind == "raise_exit":
                     out.append(("raise", None))
                     continue
